@@ -1300,11 +1300,23 @@ pub fn c11_free_case(runs: u16) -> impl Strategy<Value = RCase> {
     })
 }
 
-/// The clause, on one recorded execution: with nothing that could make the key absent (ample capacity, no remove /
-/// clear / evict / resize in the program), a get_or_fetch whose own origin was first polled after an explicit insert of
-/// the key had returned violates C11 - either its lookup missed a resident entry, or its flight was registered before
-/// the insert and not closed by it, or the closed flight's task polled its origin anyway and (before fix e4ad855) would
-/// publish the older result.
+/// The clause, on one recorded execution, in the regime where a key can never become absent once inserted (ample
+/// capacity, no remove / clear / evict / resize in the program):
+///
+///   the value x_F produced by the origin of a get_or_fetch F must not be *observed by anyone* (F itself, a caller that
+///   joined F's flight, a later get / get_or_fetch hit) if an explicit insert I of the key had returned before F's
+///   origin produced x_F.
+///
+/// Why this is exactly what foyer promises and no more: x_F is only ever delivered by F's task publishing it, which
+/// requires F's flight to be still open in the publishing critical section. I's critical section precedes the publish
+/// (I returned before the origin even produced its value). If it also preceded F's lookup+enqueue critical section, F's
+/// lookup had to hit (the key cannot become absent) and no flight would exist; if it came after, I took and closed the
+/// flight, answered its waiters with I's value, and the task must drop x_F. Either way nobody may ever see x_F.
+///
+/// What it deliberately does NOT demand (an earlier version did, and raised a false alarm, DESIGN section 7): that the
+/// origin is not *polled* after I returned. The fetch task reads the close flag and then polls the origin without
+/// holding a lock; an insert completing in that window is answered correctly (waiters get I's value, x_F is dropped in
+/// `emplace`) although the origin ran for nothing. Polling an origin is not observable through the cache.
 pub fn judge_c11_free(ex: &Exec) -> Option<Failure> {
     if let Some(p) = ex.panics.first() {
         return Some(p.clone());
@@ -1313,26 +1325,29 @@ pub fn judge_c11_free(ex: &Exec) -> Option<Failure> {
         return Some(Failure::new("free:handle-or-value-integrity", b.clone()));
     }
     for f in &ex.recs {
-        let (ROp::Fetch { k, .. }, RRet::Fetched { origin_start, ret, .. }) = (&f.op, &f.ret) else { continue };
-        if *origin_start == 0 {
+        let (ROp::Fetch { k, .. }, RRet::Fetched { origin_start, origin_done, ret }) = (&f.op, &f.ret) else { continue };
+        if *origin_done == 0 {
             continue;
         }
-        for i in &ex.recs {
-            if let ROp::Insert { k: ki, .. } = &i.op {
-                if ki == k && i.response < *origin_start {
-                    return Some(Failure::new(
-                        "free:origin-ran-after-insert-returned",
-                        format!(
-                            "insert of key {k} by T{}#{} returned at stamp {} ; the origin of get_or_fetch T{}#{} (invoked {}, answered {:?} at {}) was first polled at stamp {} although the key could not have become absent in between",
-                            i.t, i.i, i.response, f.t, f.i, f.invoke, ret, f.response, origin_start
-                        ),
-                    ));
-                }
-            }
+        let xf = ver_of(f.t, f.i);
+        // an insert of the key that had returned before F's origin produced its value
+        let Some(i) = ex.recs.iter().find(|i| matches!(&i.op, ROp::Insert { k: ki, .. } if ki == k) && i.response < *origin_done) else { continue };
+        // anyone who observed x_F
+        let seen = ex.recs.iter().find(|o| match (&o.op, &o.ret) {
+            (ROp::Fetch { k: ko, .. }, RRet::Fetched { ret: Ok(v), .. }) => ko == k && *v == xf,
+            (ROp::Get { k: ko, .. }, RRet::Got(Some(v))) => ko == k && *v == xf,
+            _ => false,
+        });
+        if let Some(o) = seen {
+            return Some(Failure::new(
+                "free:fetch-result-observed-after-insert-returned",
+                format!(
+                    "insert of key {k} by T{}#{} (value {:#x}) returned at stamp {} ; the origin of get_or_fetch T{}#{} (invoked {}, answered {:?} at {}) was first polled at stamp {} and produced {:#x} at stamp {} ; that value was observed by T{}#{} ({:?} -> {:?}, invoked {} answered {}) although the key could not have become absent in between",
+                    i.t, i.i, ver_of(i.t, i.i), i.response, f.t, f.i, f.invoke, ret, f.response, origin_start, xf, origin_done, o.t, o.i, o.op, o.ret, o.invoke, o.response
+                ),
+            ));
         }
     }
-    // and the end state: the value of the last insert that started after every origin had finished must be what a
-    // final lookup returns (nothing can evict it)
     None
 }
 
@@ -1342,6 +1357,7 @@ pub fn exec_c11_free(case: &RCase) -> CaseReport {
     let rt = tokio::runtime::Builder::new_multi_thread().worker_threads(2).build().expect("runtime");
     let base = crate::common::fingerprint(&(&case.cfg, &case.program));
     let mut overlapped = 0u32;
+    let mut late_origin = 0u32;
     for run in 0..*runs {
         let ex = execute(&case.cfg, &case.program, None, base ^ ((run as u64 + 1) << 32), Some(rt.handle()));
         bump();
@@ -1351,6 +1367,14 @@ pub fn exec_c11_free(case: &RCase) -> CaseReport {
         });
         if nt {
             overlapped += 1;
+        }
+        // the benign window (DESIGN section 7): an origin first polled after an insert of the key had returned; legal
+        // as long as nobody observes its value, which the judge below decides
+        if ex.recs.iter().any(|f| match (&f.op, &f.ret) {
+            (ROp::Fetch { k, .. }, RRet::Fetched { origin_start, .. }) if *origin_start != 0 => ex.recs.iter().any(|i| matches!(&i.op, ROp::Insert { k: ki, .. } if ki == k) && i.response < *origin_start),
+            _ => false,
+        }) {
+            late_origin += 1;
         }
         if let Some(mut f) = judge_c11_free(&ex) {
             f.message = format!("{} [free-running, run {run}]", f.message);
@@ -1363,6 +1387,9 @@ pub fn exec_c11_free(case: &RCase) -> CaseReport {
     if overlapped > 0 {
         rep.classes.push("insert-overlaps-fetch");
     }
+    if late_origin > 0 {
+        rep.classes.push("origin-polled-after-insert-returned");
+    }
     rt.shutdown_background();
     rep
 }
@@ -1373,11 +1400,51 @@ pub fn replay_c11_history(case: &serde_json::Value) -> Option<Failure> {
     judge_c11_free(&Exec { recs, bad: vec![], panics: vec![], trace: vec![], aborted: false, switches: 0 })
 }
 
+/// Two hand-written histories that pin the oracle from both sides, judged before every campaign:
+/// * the history of the false alarm of the first version of this clause (DESIGN section 7): the insert T0#1 returned
+///   at 9, the fetch task of T1#0 read the close flag before that and first polled its origin at 12, the caller was
+///   answered with the insert's value and the origin's value was dropped - legal, must be accepted;
+/// * the same history with the caller answered by its own origin's value (what a lookup / enqueue split or a publish
+///   that ignores the close flag produces) - must be rejected.
+pub fn c11_free_oracle_selftest() -> Result<(), String> {
+    let fetch = ROp::Fetch { k: 0, w: 1, hold: false };
+    let insert = ROp::Insert { k: 0, w: 1, hold: false };
+    let mk = |answer: u64, late_get: Option<u64>| {
+        let mut recs = vec![
+            Rec { t: 0, i: 0, op: ROp::Get { k: 0, hold: false }, invoke: 1, response: 3, ret: RRet::Got(None) },
+            Rec { t: 1, i: 0, op: fetch.clone(), invoke: 2, response: 14, ret: RRet::Fetched { ret: Ok(answer), origin_done: 13, origin_start: 12 } },
+            Rec { t: 0, i: 1, op: insert.clone(), invoke: 4, response: 9, ret: RRet::Inserted },
+        ];
+        if let Some(v) = late_get {
+            recs.push(Rec { t: 0, i: 2, op: ROp::Get { k: 0, hold: false }, invoke: 15, response: 16, ret: RRet::Got(Some(v)) });
+        }
+        Exec { recs, bad: vec![], panics: vec![], trace: vec![], aborted: false, switches: 0 }
+    };
+    let (v_insert, x_fetch) = (ver_of(0, 1), ver_of(1, 0));
+    if let Some(f) = judge_c11_free(&mk(v_insert, Some(v_insert))) {
+        return Err(format!("the legal history (origin polled after the insert returned, its value dropped) is rejected: {}", f.message));
+    }
+    if judge_c11_free(&mk(x_fetch, None)).is_none() {
+        return Err("a caller answered with its own origin's value after the insert had returned is accepted".into());
+    }
+    if judge_c11_free(&mk(v_insert, Some(x_fetch))).is_none() {
+        return Err("a late lookup that sees the dropped origin value is accepted".into());
+    }
+    Ok(())
+}
+
 /// Run the sub-check inside `check` (property C11). A failure is saved with its recorded history.
 pub fn run_c11_free(check: &Check) {
     install_hook();
     if !check.stats.violations.lock().unwrap().is_empty() {
         return;
+    }
+    match c11_free_oracle_selftest() {
+        Ok(()) => check.set_extra("free_oracle_selftest", json!("3/3 hand-written histories judged as expected (1 legal accepted, 2 violating rejected)")),
+        Err(e) => {
+            check.stats.inconclusive.lock().unwrap().push(format!("free-running part skipped, its oracle fails its self-test: {e}"));
+            return;
+        }
     }
     let fails: Mutex<Vec<(serde_json::Value, Failure)>> = Mutex::new(vec![]);
     let executions = AtomicU64::new(0);
